@@ -150,8 +150,10 @@ def r3(run, ctx):
                   'shutdown stops all watchers, closing their output streams, and waits', f,
                   s.node.ast)
     ys = [s.node for s in sw if astq.call_is_yielded(s.node, s.call)]
+    from rules.common import loop_stop_nodes
     sched = [n for n in ctx.live_nodes(f) if any(
         astq.call_last(c) == 'add_callback' for c in n.calls())]
+    sched += [n for n, deferred in loop_stop_nodes(ctx, f) if not deferred and n not in sched]
     run.need('R3', sched, 'loop-stop / close scheduling in Arbiter.stop', f)
     run.check('R3', cfg.must_pass(cfg.entry, [cfg.exit], sched, labels_excluded=('exc',)),
               'every normal path of Arbiter.stop schedules the loop stop (or the close for a '
